@@ -297,7 +297,18 @@ func c12Clients(nSeeds int) []gridClient {
 	return out
 }
 
+// c12NPNClient — a spec whose (never sent) NPN list names protocols its ALPN extension does not:
+// only the ALPN extension on the wire is an offer.
+func c12NPNClient() gridClient {
+	return gridClient{Name: "custom:alpn[h2,http/1.1]+npn[verif-unoffered,spdy/3.1]", ID: tls.HelloCustom, Spec: func() (*tls.ClientHelloSpec, error) {
+		sp := handshakeSpec("tls13-minimal")
+		sp.Extensions = append(sp.Extensions, &tls.NPNExtension{NextProtos: []string{"h2", "verif-unoffered", "spdy/3.1"}})
+		return sp, nil
+	}}
+}
+
 func c12Scenario(clients []gridClient) *explore.Scenario {
+	clients = append(append([]gridClient{}, clients...), c12NPNClient())
 	kinds := c12Kinds()
 	return &explore.Scenario{
 		Name: "unoffered-server-choices",
